@@ -88,10 +88,15 @@ class DegreeOverflow(Exception):
     pass
 
 
+class WorkExceeded(Exception):
+    """Raised when an optional work budget (CFG.work) is exhausted; used to bound exploratory normalisations."""
+
+
 class _Cfg:
     maxdeg = 12
     maxterms = 60000
     overflow_atoms = 0
+    work = None
 
 
 CFG = _Cfg()
@@ -206,6 +211,10 @@ class Poly:
             return s
         if not s.t:
             return o
+        if CFG.work is not None:
+            CFG.work -= len(o.t) + (len(s.t) >> 3)
+            if CFG.work < 0:
+                raise WorkExceeded()
         t = dict(s.t)
         for m, c in o.t.items():
             v = t.get(m, _ZERO) + c
@@ -238,6 +247,10 @@ class Poly:
             return o.scale(s.t[()])
         if len(o.t) == 1 and () in o.t:
             return s.scale(o.t[()])
+        if CFG.work is not None:
+            CFG.work -= len(s.t) * len(o.t)
+            if CFG.work < 0:
+                raise WorkExceeded()
         if len(s.t) * len(o.t) > CFG.maxterms * 8:
             CFG.overflow_atoms += 1
             return opaque("bigmul", s, o)
